@@ -12,6 +12,15 @@ NOTES = ("All checks: bin/check <ID> --tier quick|thorough; VERIF_SEED seeds con
 _TLC = "explicit TLA+ spec + TLC: exhaustive design check, TLC-generated cases replayed into the Go code, recorded traces judged by a TLC trace module"
 
 CHECKS = {
+    "C09": {
+        "level": "model_checking",
+        "text": "Template.tla holds a declarative reference for T/Sprintf/Comment/GoDirective/Snippets written from the statement and a scanner-shaped machine "
+                "for T that TLC proves equal to it for all formats in bound (Loop A); every reachable state of the per-API generation machines (all formats over the "
+                "alphabet up to the bound, argument kinds chosen per verb, fixed binding environment with nil/empty/placeholder-looking/nested arguments) is rendered "
+                "through gengo.NewSnippetWriter and TemplateTrace.tla compares output / panic with the reference (Loop C); seeded random long Unicode formats beyond.",
+        "note": "Small-scope exhaustive (length bound, fixed alphabet and environment). Inputs with NUL/BOM/invalid UTF-8 excluded (text/scanner alters them); trailing lone '%' accepted either way.",
+        "technique": _TLC,
+    },
     "C15": {
         "level": "model_checking",
         "text": "TypeRef.tla defines reference trees, their printer, a character-level parser with a bracket depth counter, the path/name split point and the "
